@@ -70,7 +70,9 @@ class Net:
     sizes (callable rng -> payload length), retry_modes, steps, heal_after (step index after
     which the network is perfect and no new sends happen), mtu, tick (ticks per step)"""
 
-    def __init__(self, run, rng, cfg, mtu=1500, key=7, established=True, seq0=None, pinned=True):
+    def __init__(self, run, rng, cfg, mtu=1500, key=7, established=True, seq0=None, pinned=True, seq0_server=None):
+        """seq0 (optional) = [datagram counter, message counter] both endpoints start with; seq0_server (optional)
+        = the same for the server-side connection alone (default: seq0)"""
         self.run, self.rng, self.cfg = run, rng, cfg
         self.mtu = mtu
         self.keys = S.Keys()
@@ -78,7 +80,8 @@ class Net:
         S.CLOCK.t = T * 100
         self.t = S.CLOCK.t
         self.A = Endpoint("client", self.keys, key, established=established, seq0=seq0, pinned=pinned)   # client
-        self.B = Endpoint("server", self.keys, key, established=established, seq0=seq0)                  # server-side connection
+        self.B = Endpoint("server", self.keys, key, established=established,
+                          seq0=seq0_server if seq0_server is not None else seq0)                           # server-side connection
         self.key = key
         self.flight = []           # (deliver_at, dst, bytes, dgram_index)
         self.emitted = {"client": [], "server": []}   # every datagram ever emitted (bytes, time)
@@ -117,6 +120,49 @@ class Net:
         for o in outs:
             if o[0] == 3:
                 self.raised.append((self.t, who, "send", o[1], length))
+        return mid
+
+    def send_fresh(self, who, make, retry, api=False):
+        """(optional) identity-vs-equality mode: the payload is built by make() INSIDE the send call, the way an application
+        writes conn.send(state.serialize()), and the harness keeps NO reference to it — only sha256, length and the integer
+        id() are recorded (self.sent[who][mid] has "digest"/"len"/"id" and no "payload"), so the object is freed as soon as
+        the implementation lets go of it and a later payload may get the same address.  make must be deterministic: it is
+        called again after the session to give the model its send events (check_models does that).  Goes through the public
+        entry points UdpClient.send / send_guaranteed and ServerClientConnection.send / send_guaranteed."""
+        import hashlib
+        e = self.ep(who)
+        impl = e.impl
+        mid = self.next_id
+        self.next_id += 1
+        probe = []
+
+        def build():
+            p = make()
+            probe.append((id(p), hashlib.sha256(p).digest(), len(p)))
+            return p
+        outs = []
+        impl.cblog = []
+        try:
+            if api and retry == -1:
+                (impl.client if who == "client" else impl.conn).send_guaranteed(build())
+            elif who == "client":
+                impl.client.send(build(), retry=retry)
+            else:
+                impl.conn.send(build(), retry=retry)
+        except Exception as ex:   # noqa
+            outs.append([3, lib.exc_code(ex)])
+        ident, digest, length = probe[0]
+        e.mevs.append([0, None, retry, -1])
+        if not hasattr(e, "fresh"):
+            e.fresh = []
+        e.fresh.append((len(e.mevs) - 1, make))
+        e.index.append(len(e.mevs) - 1)
+        e.events.append(("send_fresh", length, retry))
+        e.itrace.append([S.canon(outs), None])       # no snapshot here: a snapshot would hold the queued payload object
+        self.sent[who][mid] = {"digest": digest, "len": length, "id": ident, "retry": retry, "time": self.t, "cb": None,
+                               "accepted": not outs and impl.conn.status.value == 2}
+        for o in outs:
+            self.raised.append((self.t, who, "send", o[1], length))
         return mid
 
     def disconnect(self, who):
@@ -226,6 +272,9 @@ class Net:
     def check_models(self):
         out = []
         for e in (self.A, self.B):
+            for i, make in getattr(e, "fresh", []):
+                if e.mevs[i][1] is None:
+                    e.mevs[i][1] = bytes(make())       # send_fresh: the model's send event gets the payload now
             if getattr(self, "mtu_changed", False):
                 # self.env is the environment the session STARTED with; the [9, env'] events carry the changes
                 d = check_model_mtu(self.run, e, self.env, list(e.seq0) if e.seq0 is not None else [0, 0])
